@@ -1,5 +1,5 @@
 """C02 — the score: which strings are compared at which effective block size, on every entry point (not the score value)."""
-from ..rules import effbs, blocksize, convert, typestate, casts, vis
+from ..rules import effbs, blocksize, convert, typestate, casts, vis, summary
 
 EXPL = ("Decides (SA-EFFBS, dimension analysis over MIR): at every scorer call site whose operands are block hashes of hash objects "
         "(FuzzyHashCompareTarget::compare* relation-specific variants, FuzzyHashData::compare via compare_optimized_internal) the two "
@@ -33,6 +33,7 @@ def run(ctx):
         ctx.guard("C02", "views", lambda: typestate.views_are_like_indexed(ctx, prog))
         ctx.guard("C02", "equiv", lambda: typestate.equiv_exact(ctx, prog))
         ctx.guard("C02", "accumulate", lambda: typestate.accumulate_exact(ctx, prog))
+        ctx.guard("C02", "summaries", lambda: summary.check(ctx, prog, 'internals::compare::|compare_easy::', floor=10))
         ctx.guard("C02", "traits", lambda: vis.trait_census(ctx, prog, scope='position_array::|FuzzyHashCompareTarget'))
         ctx.guard("C02", "casts", lambda: casts.census(ctx, prog, scope='internals::compare::', floor=3))
         if c not in ("nodef",):
